@@ -61,6 +61,8 @@ class BalWorld(object):
   def conn_spec(self, key, ordinal, total):
     spec = {'open_delay': self.cfg.get('open_delay', 0), 'open_sync': self.cfg.get('open_sync', True),
             'reopen': True}
+    if self.cfg.get('close_fails_inflight'):
+      spec['close_fails_inflight'] = True
     slow = self.cfg.get('slow_members')
     if slow and str(key) in slow:
       # this member's handshake takes longer than the others'
@@ -204,6 +206,21 @@ class BalWorld(object):
                     'request %s went to %s with %d outstanding while an open member has %d (%d members in use)' % (
                       r.call_id, chosen.endpoint, mine, best, len(nodes)),
                     {'kind': self.kind, 'members_ge_6': len(nodes) >= 6})
+      return
+    if self.kind == 'heap' and ss.loaded and ss.queue.empty() and ss.busy == 0:
+      # the heap balancer uses every member of the server set: compare with the
+      # model's members (whatever the balancer's own heap says it holds)
+      cands = []
+      for key in sorted(self.keys[i] for i in self.sent):
+        live = [x for x in self.provider.by_endpoint.get(key, []) if x.closed_at is None]
+        if live and live[-1].state == ChannelState.Open and live[-1].created_step != step:
+          cands.append(live[-1])
+      if cands:
+        best_m = min(self.outstanding(x, exclude=r) for x in cands)
+        if mine > best_m:
+          REC.violation('C03', 'not_least_loaded',
+                        'request %s went to %s with %d outstanding while an open member of the server set has %d' % (
+                          r.call_id, chosen.endpoint, mine, best_m), {'kind': self.kind, 'by_model': True})
 
   # -- C04 -------------------------------------------------------------------
   def check_loads(self, where):
@@ -509,7 +526,15 @@ class BalWorld(object):
           c = self.tracker.issue(self.disp, op['id'], 'm', (op['id'],), timeout=op['timeout'], spec=op)
           c.extra['expect_no_members'] = True
         else:
-          self.tracker.issue(self.disp, op['id'], 'm', (op['id'],), timeout=op['timeout'], spec=op)
+          ss_ = self.serverset
+          have_open = False
+          if self.open_ar.ready() and ss_.loaded and ss_.queue.empty() and ss_.busy == 0 and self.lb_open():
+            for key in sorted(self.keys[i] for i in self.sent):
+              live = [x for x in self.provider.by_endpoint.get(key, []) if x.closed_at is None]
+              if live and live[-1].state == ChannelState.Open and live[-1].died_at is None:
+                have_open = True
+          c = self.tracker.issue(self.disp, op['id'], 'm', (op['id'],), timeout=op['timeout'], spec=op)
+          c.extra['open_member_at_issue'] = have_open
       elif k == 'steady':
         self.run_steady(op)
       elif k in ('down', 'up'):
@@ -562,6 +587,16 @@ class BalWorld(object):
                         'call %s issued with no members: %s' % (
                           c.id, 'never completed' if cd is None else '%s after %.6f s' % (
                             exc_name(cd[2]) if cd[1] == 'exc' else 'value', cd[0] - c.t)))
+    # ... and with an open member in the (fully delivered) server set a request
+    # is handed to a member, it does not fail for want of one
+    for c in self.tracker.order:
+      if c.extra.get('open_member_at_issue') and not c.arrivals:
+        cd = c.caller_done()
+        if cd is not None and cd[1] == 'exc' and cd[0] - c.t < 1e-3 and exc_name(cd[2]) not in ('TimeoutError',):
+          REC.violation('C03', 'failed_without_member',
+                        'call %s failed at once with %s and reached no member although the server set has an open member' % (
+                          c.id, exc_name(cd[2])), {'kind': self.kind})
+          break
     self.tracker.check_exactly_once(prop='C04', check_deadline=False)
     pending = [c for c in self.tracker.order if not c.completions]
     if not pending:
@@ -580,7 +615,7 @@ class BalWorld(object):
       return
     want = set(self.keys[i] for i in self.sent)
     # make every member's channel healthy so that only membership matters
-    for key in want:
+    for key in sorted(want):
       for s in self.provider.by_endpoint.get(key, []):
         if s.closed_at is None and s.died_at is not None:
           s.revive()
@@ -592,9 +627,10 @@ class BalWorld(object):
     gevent.sleep(0.5)
     hit = set()
     for s in self.provider.sinks:
-      # a request handed to a channel that is closed is refused by it at once:
-      # that member did not serve
-      if len(s.requests) > before.get(id(s), 0) and s.closed_at is None and s.died_at is None:
+      # a request handed to a channel that is closed, or that nobody ever opened,
+      # is refused by a real transport at once: that member did not serve
+      if len(s.requests) > before.get(id(s), 0) and s.closed_at is None and s.died_at is None \
+          and s.open_calls > 0:
         hit.add(s.endpoint)
     REC.probe('saturation_probe')
     if hit != want:
